@@ -278,6 +278,9 @@ func c17Intervals(c *Ctx, r *Report, fname string, want func(int64) bool) {
 				}
 			}
 			// the parameter must appear only in comparisons and as the stored value
+			if ue, ok := nd.(*ast.UnaryExpr); ok && identOf(ue.X) != nil && identOf(ue.X).Name == p.Name() && ue.Op != token.AND {
+				okUse, whyUse = false, "parameter is used in arithmetic: "+exprStr(ue)
+			}
 			if be, ok := nd.(*ast.BinaryExpr); ok {
 				usesP := identOf(be.X) != nil && identOf(be.X).Name == p.Name() || identOf(be.Y) != nil && identOf(be.Y).Name == p.Name()
 				if usesP {
